@@ -194,6 +194,11 @@ func (c *CheckCtx) evaluate() {
 		for _, u := range jr.Undecided {
 			c.Undecided = append(c.Undecided, fmt.Sprintf("obligation=%s reason=%q", jr.Job.Label, u))
 		}
+		// vacuity guard: a job none of whose paths reaches its end decides nothing
+		if jr.Err == "" && jr.OkPaths == 0 && jr.PanicPaths == 0 && len(jr.Undecided) == 0 {
+			c.Undecided = append(c.Undecided, fmt.Sprintf("obligation=%s reason=%q", jr.Job.Label,
+				fmt.Sprintf("vacuous: none of the %d paths reached the end of the harness (%d infeasible, %d bounded)", jr.Paths, jr.Infeasible, jr.Bounded)))
+		}
 		kept := jr.Obls[:0]
 		for _, o := range jr.Obls {
 			name := o.Name[len(jr.Job.Label)+1:]
